@@ -276,7 +276,7 @@ impl Property for C08 {
     type Case = Case;
     const ID: &'static str = "C08";
     fn cases(tier: Tier) -> u64 {
-        tier.pick(4_000, 300_000)
+        tier.pick(60_000, 1_000_000)
     }
     fn strategy(tier: Tier) -> BoxedStrategy<Case> {
         let nq = tier.pick(12usize, 40usize);
